@@ -493,13 +493,22 @@ func runC14(c *Ctx) {
 				continue // the nil scanner of the error returns
 			}
 			viaCodec := false
-			if fnc != nil {
-				for _, ci := range core.Calls(fnc) {
+			// the scanner itself, or - for a method value / a thin closure - the function of the package it hands on to
+			var look func(f *ssa.Function, depth int)
+			look = func(f *ssa.Function, depth int) {
+				if f == nil || depth == 0 {
+					return
+				}
+				for _, ci := range core.Calls(f) {
 					if cc := ci.Common(); cc.IsInvoke() && cc.Method.Name() == "DecodeValue" {
 						viaCodec = true
 					}
+					if h := core.StaticCallee(ci); h != nil && c.P.InPkg(h, "wire") {
+						look(h, depth-1)
+					}
 				}
 			}
+			look(fnc, 3)
 			R.Check(viaCodec, "C14.R4", "NewScanner:scanner-uses-codec:"+retDescr(r), c.at(r), "every scanner decodes its field through the declared column type's codec in the requested format", "the returned closure calls Codec.DecodeValue", "a scanner returned by NewScanner decodes by hand instead of through the column's codec: NULL (nil), short or malformed field values are not handled as the codec does (wrong values or a panic)")
 		}
 		for _, a := range nsf.AnonFuncs {
